@@ -986,6 +986,29 @@ Lemma f18_regression :
      = [Some 0; Some (row_address 1 0); Some 2; Some 3; None].
 Proof. vm_compute. split; reflexivity. Qed.
 
+(* compaction through the whole commit path *)
+Theorem commit_rewrite_keeps latest groups ri fri us sf m' n :
+  wf_manifest latest = true -> m_next_row_id latest = Some n ->
+  op_ok true (Some latest) (Rewrite groups ri fri) = true -> op_ids_ok latest (Rewrite groups ri fri) = true ->
+  commit_step latest (Rewrite groups ri fri) us sf = Ok m' ->
+  forall x, In x (live_ids latest) -> In x (live_ids m').
+Proof.
+  unfold commit_step. intros W EN OK OI H. destruct (negb (validate_operation (Some latest) (Rewrite groups ri fri))); [discriminate|].
+  bind_as H m1 EB. bind_as H m2 EF.
+  assert (US : uses_stable latest = true) by (unfold uses_stable; rewrite EN; reflexivity).
+  assert (OK' : op_ok (table_stable (Some latest) (mkConfig us sf)) (Some latest) (Rewrite groups ri fri) = true) by (cbn [table_stable]; rewrite US; exact OK).
+  pose proof (build_manifest_wf (Some latest) _ _ m1 W OK' EB) as W1.
+  rewrite (fix_schema_id _ W1) in EF. inversion EF; subst m2. destruct (check_storage_ids _ _ H) as [F1 _].
+  unfold build_manifest in EB. destruct (cfg_stable (mkConfig us sf) && _); [discriminate|].
+  bind_as EB schema ES. bind_as EB nri ENR. bind_as EB r EA. destruct r as [[final idx] nri'].
+  assert (nri = Some n) by (unfold start_next_row_id in ENR; rewrite EN in ENR; destruct (cfg_stable (mkConfig us sf)); inversion ENR; reflexivity). subst nri.
+  destruct (finish_shape _ _ _ _ _ _ _ _ EB) as [EFR _]. cbn zeta in EFR.
+  intros x I. rewrite live_ids_eq in *. rewrite F1, EFR.
+  rewrite (proj2 (ids_by_view _ _ (remove_tombstoned_iv (sort_frags final)))).
+  eapply Permutation_in; [apply Permutation_sym; apply (flat_map_perm live_ids_of); apply sort_frags_perm|].
+  exact (rewrite_keeps latest groups ri fri (mkConfig us sf) schema n final idx nri' W EN OK OI EA x I).
+Qed.
+
 (* ================================================================ the fragment-id keyed cache of row id sequences *)
 Lemma cached_ids_ok warm m :
   Known_C18_rowid_sequence_cache_keyed_by_fragment_id warm m = false ->
